@@ -99,6 +99,41 @@ ANNOT = [('x: int = 1', dict(remove_variable_annotations=True), 'x = 1'), ('x: i
          ('class A:\n def f(self):\n  if 1:\n   x: int = 1', dict(remove_class_attribute_annotations=True), 'class A:\n def f(self):\n  if 1:\n   x: int = 1')]
 
 
+ALIASED = [('from dataclasses import dataclass as dc\n@dc\nclass A:\n x: int = 1\n y: int', dict(remove_class_attribute_annotations=True)),
+           ('from typing import NamedTuple as NT\nclass A(NT):\n x: int = 1', dict(remove_class_attribute_annotations=True))]
+_SCOPE = 'scope-effect-of-removed-statement'
+DASH_O = [('remove_debug', 'def events(log):\n for line in log:\n  print("handling", line)\n if __debug__:\n  yield "summary"\nprint(type(events(["a"])).__name__)', _SCOPE),
+          ('remove_debug', 'counter = 0\ndef bump():\n if __debug__:\n  global counter\n counter = 1\nbump()\nprint(counter)', _SCOPE),
+          ('remove_debug', 'level = "module"\ndef f():\n if __debug__:\n  level = "debug"\n return level\nprint(f())', _SCOPE),
+          ('remove_asserts', 'm = "global"\ndef parse(s):\n assert (m := s.strip())\n return m\nprint(parse(" x "))', _SCOPE),
+          ('remove_asserts', 'def consumer():\n assert (yield "ready")\nprint(type(consumer()).__name__)', _SCOPE),
+          # controls: these must agree with -O
+          ('remove_asserts', 'def f(x):\n assert print("evaluated") is None\n return x\nprint(f(1))', None),
+          ('remove_asserts', 'def f(x):\n assert x, "message"\n return x\nprint(f(0))', None),
+          ('remove_asserts', 'for i in range(2):\n assert i < 1\nelse:\n print("done")', None),
+          ('remove_debug', 'def f():\n if __debug__:\n  print("debug")\n else:\n  print("optimised")\n return 1\nprint(f())', None),
+          ('remove_debug', 'def f():\n if __debug__ is True:\n  print("debug")\n print("always")\nf()', None),
+          ('remove_debug', 'def f():\n if not __debug__:\n  print("optimised")\n print("always")\nf()', None),
+          ('remove_debug', 'x = 1\nif __debug__:\n print("debug")\nprint(x)', None),
+          ('remove_debug', 'class K:\n if __debug__:\n  flag = True\nprint(hasattr(K, "flag"))', None),
+          ('remove_debug', 'def f(__debug__=0):\n pass\n' if False else 'def f():\n while True:\n  if __debug__:\n   print("debug")\n  break\n print("after")\nf()', None)]
+
+
+def observe(src):
+    """stdout and exception type of the module run the way `python -O` runs it"""
+    import contextlib
+    import io
+    buf = io.StringIO()
+    exc = None
+    try:
+        code = compile(src, '<m>', 'exec', dont_inherit=True, optimize=1)
+        with contextlib.redirect_stdout(buf):
+            exec(code, {'__name__': '__main__'})
+    except BaseException as e:  # noqa: B902
+        exc = type(e).__name__
+    return buf.getvalue(), exc
+
+
 def same(a, b):
     return ast.dump(ast.parse(a)) == ast.dump(ast.parse(b))
 
@@ -149,6 +184,35 @@ def main():
             continue
         if not same(on, want):
             fails.append({'input': src, 'option': repr(fl), 'failure': 'got %r, documented rewrite gives %r' % (on, want)})
+    # recorded known finding: the protected classes are recognised by the spelling of the decorator / base only
+    for src, fl in ALIASED:
+        cases += 1
+        opts = RemoveAnnotationsOptions(remove_variable_annotations=False, remove_return_annotations=False, remove_argument_annotations=False,
+                                        remove_class_attribute_annotations=False)
+        for k, v in fl.items():
+            setattr(opts, k, v)
+        kw = dict(OFF)
+        kw['remove_annotations'] = opts
+        try:
+            on = python_minifier.minify(src, **kw)
+            if not same(on, src):
+                fails.append({'input': src, 'option': repr(fl), 'mechanism': 'protected-class-under-alias', 'failure': 'field annotation of a dataclass / NamedTuple removed: %r' % on})
+        except Exception as e:
+            fails.append({'input': src, 'option': repr(fl), 'failure': 'raised %s' % type(e).__name__})
+    # assert / __debug__ removal against the interpreter's own -O mode: same observable behaviour when both are compiled with optimize=1
+    for opt, src, mech in DASH_O:
+        cases += 1
+        kw = dict(OFF)
+        kw[opt] = True
+        try:
+            out = python_minifier.minify(src, **kw)
+        except Exception as e:
+            fails.append({'input': src, 'option': opt, 'failure': 'raised %s' % type(e).__name__})
+            continue
+        a, b = observe(src), observe(out)
+        if a != b:
+            fails.append({'input': src, 'option': opt, 'mechanism': mech, 'failure': 'python -O runs %r, the minified module runs %r (%r)' % (a, b, out[:120])})
+    fails.sort(key=lambda f: bool(f.get('mechanism')))
     print(json.dumps({'cases': cases, 'failures': fails[:40], 'n_failures': len(fails)}))
 
 
